@@ -187,7 +187,7 @@ class Spec(core.PropSpec):
         need_ctx = "dino" in stack["collators"]
         mode = "x class" if need_class else rw.choice(["x", "index x", "x class"])
         return dict(stack=stack, mode=mode, return_ctx=need_ctx, K=ro.choice([1, 2, 2, 3, 4]),
-                    betas=[ro.randint(0, 2 ** 40) for _ in range(3)], batch_size=ro.choice([1, 2, 3]), n_batches=ro.randint(1, 4),
+                    betas=[ro.randint(0, 2 ** 40) for _ in range(3)], batch_size=ro.choice([1, 2, 3]), n_batches=ro.randint(1, 4 if tier == "quick" else 8),
                     hook=ro.random() < 0.93, clobbers=[ro.choice([None, ["np", ro.randint(0, 99)], ["torch", 1], ["py", 2]]) for _ in range(4)],
                     sched_seed=ro.getrandbits(32), amb_main=rw.getrandbits(30))
 
